@@ -136,6 +136,34 @@ POOL = {
 }
 
 
+POOL[10] = dict(name="DTCWTInverse(qshift_06)", make=lambda: pw.DTCWTInverse(qshift="qshift_06"),
+                args={k: v for k, v in POOL[6]["args"].items()})         # same shapes, other 10-tap q-shift table
+POOL[12] = dict(name="DTCWTForward(J=2,legall,qshift_06)", make=lambda: pw.DTCWTForward(J=2, biort="legall", qshift="qshift_06"),
+                args={k: v for k, v in POOL[2]["args"].items()})
+
+
+def _bump(shape):
+    """a size one larger on every signal axis: lands in the same rounding block (multiple of 2, 4, 8) as the original for most
+    sizes - where a cached size decision of an earlier call would be reused wrongly"""
+    return tuple(shape[:2]) + tuple(n + 1 for n in shape[2:])
+
+
+# argument 4 of every configuration: argument 2 with every signal axis one sample longer
+_ARG2_SHAPES = {1: (2, 1, 8, 8), 2: (1, 1, 7, 9), 3: (1, 3, 8), 4: (2, 1, 9, 10), 5: (2, 1, 8, 8), 6: (1, 1, 7, 9), 7: (2, 1, 8, 8),
+                8: (2, 1, 9, 12), 9: (1, 3, 8), 10: (1, 1, 7, 9), 11: (1, 3, 8), 12: (1, 1, 7, 9), 13: (2, 1, 8, 8), 15: (1, 3, 8)}
+for _c, _shp in _ARG2_SHAPES.items():
+    if _c in (5,):
+        POOL[_c]["args"][4] = (lambda shp: (lambda dt: _pyr_dwt(_bump(shp), dt, 504)))(_shp)
+    elif _c in (6, 10):
+        POOL[_c]["args"][4] = (lambda shp: (lambda dt: _pyr_dtcwt(_bump(shp), dt, 604)))(_shp)
+    elif _c == 15:
+        POOL[_c]["args"][4] = (lambda shp: (lambda dt: _pyr_dwt1((shp[0], shp[1], shp[2] + 2), dt, 1504)))(_shp)
+    elif _c == 13:
+        POOL[_c]["args"][4] = (lambda shp: (lambda dt: _rand((shp[0], shp[1], shp[2] + 4, shp[3] + 4), dt, 1304)))(_shp)   # SWT: multiples of 2^J
+    else:
+        POOL[_c]["args"][4] = (lambda shp, c: (lambda dt: _rand(_bump(shp), dt, 100 * c + 4)))(_shp, _c)
+
+
 class ArgumentMutated(Exception):
     pass
 
